@@ -1,26 +1,49 @@
 """Worker for C17: calls functions wrapped with the real @snark decorator on random nested argument structures
 and reports, per call, the public values added, the linking constraints, the returned plain values and what the
-undecorated function returns on the plain arguments.  Protocol: `N|id|<json>`."""
+undecorated function returns on the plain arguments.  Protocol: `N|id|<json>`.
+
+Argument structures may SHARE sub-containers: the json node ["ref", k] is the k-th list/tuple/dict completed so far
+while building this call's arguments, and is built as THE SAME Python object (`f(v, v)`, `[row, row]`).  A call may
+carry "guards": [[kind, g], ...] (kind "L": PrivVal(g), "B": PrivValBool(g)), outermost first: the decorated call is
+then made inside `guarded(c1)(lambda: guarded(c2)(...)())()` of the real runtime."""
 import sys, os, json, traceback
 from fractions import Fraction
 sys.path.insert(0, os.path.dirname(os.path.abspath(__file__)))
 import worker as W
 import canon
 B = W.B; R = W.R
-from pysnark.runtime import PrivVal, LinComb, snark
+from pysnark.runtime import PrivVal, LinComb, snark, guarded
+from pysnark.boolean import PrivValBool
 from pysnark.boolean import LinCombBool
 from pysnark.fixedpoint import LinCombFxp
 
 
-def build(a):
-    """json -> python structure: ["i", n] int, ["f", m, e] float m/2^e, ["l", [...]], ["t", [...]], ["d", {k: v}]"""
+def build(a, memo=None):
+    """json -> python structure: ["i", n] int, ["f", m, e] float m/2^e, ["l", [...]], ["t", [...]], ["d", {k: v}],
+    ["ref", k]: the k-th container completed so far (the same object, not a copy)"""
+    if memo is None: memo = []
     t = a[0]
     if t == "i": return a[1]
     if t == "f": return float(Fraction(a[1], 2 ** a[2]))
-    if t == "l": return [build(x) for x in a[1]]
-    if t == "t": return tuple(build(x) for x in a[1])
-    if t == "d": return {k: build(v) for k, v in a[1].items()}
-    raise ValueError(a)
+    if t == "ref": return memo[a[1]]
+    if t == "l": r = [build(x, memo) for x in a[1]]
+    elif t == "t": r = tuple([build(x, memo) for x in a[1]])
+    elif t == "d": r = {k: build(v, memo) for k, v in a[1].items()}
+    else: raise ValueError(a)
+    memo.append(r)
+    return r
+
+
+def under_guards(conds, thunk):
+    """thunk() inside guarded(conds[0])(... guarded(conds[-1])(thunk) ...), with the real `guarded`"""
+    fn = thunk
+    for c in reversed(conds):
+        fn = guarded(c)(fn)
+    return fn()
+
+
+def make_cond(kind, g):
+    return PrivValBool(g) if kind == "B" else PrivVal(g)
 
 
 def leaves(x):
@@ -51,6 +74,17 @@ def body(template, extra):
         if template == "fxmix": return (flts[0] + a if flts else a, a * b, (a == b))
         if template == "plain": return 7
         if template == "passthrough": return list(xs)
+        if template == "echo": return list(args)              # the argument structure itself (converted), sharing and all
+        if template == "sharedret":                           # the same list object in two slots of the result
+            ys = [a * b, a + 1]
+            return (ys, ys)
+        if template == "sharedrows":                          # a matrix built as [row, row], and the row again in a dict
+            row = [x * x for x in ints[:3]]
+            return [row, row, {"k": row}]
+        if template == "sharedtuple":                         # the same tuple object twice, nested
+            t = (a, a * b)
+            u = [t, 5]
+            return (u, t, u)
         if template == "leak":        # a body that itself publishes something: allowed ("nothing ELSE" refers to the wrapper)
             (a * 1).val(); return a
         raise ValueError(template)
@@ -68,10 +102,12 @@ def plainval(x, res):
     return ["?", type(x).__name__]
 
 
-def build_struct(t, secret_ok):
-    """compact structured value (see lean/PysnarkModel/Driver/ProtoStruct.lean) -> python structure"""
+def build_struct(t, secret_ok, memo=None):
+    """compact structured value (see lean/PysnarkModel/Driver/ProtoStruct.lean) -> python structure; `@k` is the k-th
+    list/tuple completed so far: the same object"""
     from pysnark.boolean import PrivValBool
     from pysnark.fixedpoint import PrivValFxp
+    if memo is None: memo = []
     def split_top(s):
         out = []; depth = 0; cur = ""
         for ch in s:
@@ -83,8 +119,13 @@ def build_struct(t, secret_ok):
                 cur += ch
         if s != "": out.append(cur)
         return out
-    if t.startswith("["): return [build_struct(x, secret_ok) for x in split_top(t[1:-1])]
-    if t.startswith("("): return tuple(build_struct(x, secret_ok) for x in split_top(t[1:-1]))
+    if t.startswith("["):
+        r = [build_struct(x, secret_ok, memo) for x in split_top(t[1:-1])]
+        memo.append(r); return r
+    if t.startswith("("):
+        r = tuple([build_struct(x, secret_ok, memo) for x in split_top(t[1:-1])])
+        memo.append(r); return r
+    if t.startswith("@"): return memo[int(t[1:])]
     k = t.split(":")
     if k[0] == "i": return int(k[1])
     if k[0] == "f": return float(Fraction(int(k[1]), 2 ** int(k[2])))
@@ -104,20 +145,21 @@ def handle_conv(kind, f):
     W.reset({"p": W.DEFAULT_P, "bl": 32, "res": int(f[2])})
     p = W.DEFAULT_P
     got = {}
+    guards = [t.split(":") for t in f[4].split(",")] if len(f) > 4 else []
+    conds = [make_cond(k, int(g)) for k, g in guards]
     if kind == "NI":
-        args = build_struct(f[3], False)
         def fn(*a):
             got["args"] = a
             return 0
-        snark(fn)(*args)
+        under_guards(conds, lambda: snark(fn)(*build_struct(f[3], False)))
         r = shape_str(tuple(got["args"]), p)
-        npub0 = 0
     else:
         def fn():
             return build_struct(f[3], True)
-        ret = snark(fn)()
+        ret = under_guards(conds, lambda: snark(fn)())
         r = shape_str(ret, p)
-    return f"{f[1]}|ok|{r}|pubs={','.join(map(str, B.pubvals))}|ncons={len(B.constraints)}|npriv={len(B.privvals)}"
+    return (f"{f[1]}|ok|{r}|pubs={','.join(map(str, B.pubvals))}|ncons={len(B.constraints)}|npriv={len(B.privvals)}"
+            + ("|" + W.state_str(p) if guards else ""))
 
 
 def main():
@@ -139,7 +181,7 @@ def main():
             calls = []
             for c in j["calls"]:
                 args = build(["t", c["args"]])
-                npub0, npriv0, ncons0 = len(B.pubvals), len(B.privvals), len(B.constraints)
+                npub_before = len(B.pubvals)
                 rec = {}
                 fn = body(c["template"], None)
                 # probe run (own conversion of the arguments, state discarded): which result leaves are secret, and of what kind
@@ -160,22 +202,30 @@ def main():
                     rec["retkinds"] = None
                 finally:
                     B.pubvals[:] = snap[0]; B.privvals[:] = snap[1]; B.constraints[:] = snap[2]
-                try:
-                    if c.get("kwargs"):
-                        ret = snark(fn)(*args, extra=1)
-                    else:
-                        ret = snark(fn)(*args)
-                    rec["status"] = "ok"; rec["ret"] = plainval(ret, j.get("res", 8))
-                except Exception as e:
-                    rec["status"] = type(e).__name__
-                rec["pubs"] = B.pubvals[npub0:]
-                rec["npriv"] = len(B.privvals) - npriv0
-                cons = B.constraints[ncons0:]
-                # linking constraints: 0 * 0 = expr - pub_k
-                # linking constraints `0 * 0 = expr - out`: for every new public wire, is there such a constraint with
-                # coefficient -1 on it in which it is the newest public wire?
+                conds = [make_cond(k, g) for k, g in c.get("guards", [])]
+                pos = {}
+                def do_call():
+                    # positions are taken INSIDE the guarded region(s): entering a nested region records wires itself
+                    pos["np"], pos["npr"], pos["nc"] = len(B.pubvals), len(B.privvals), len(B.constraints)
+                    try:
+                        if c.get("kwargs"):
+                            ret = snark(fn)(*args, extra=1)
+                        else:
+                            ret = snark(fn)(*args)
+                        rec["status"] = "ok"; rec["ret"] = plainval(ret, j.get("res", 8))
+                    except Exception as e:
+                        rec["status"] = type(e).__name__
+                    pos["np1"], pos["npr1"], pos["nc1"] = len(B.pubvals), len(B.privvals), len(B.constraints)
+                under_guards(conds, do_call)
+                npub0, npub1, ncons0, ncons1 = pos["np"], pos["np1"], pos["nc"], pos["nc1"]
+                rec["pubs"] = B.pubvals[npub0:npub1]
+                rec["npriv"] = pos["npr1"] - pos["npr"]
+                rec["pubs_around"] = len(B.pubvals) - npub_before - (npub1 - npub0)   # made public by entering/leaving the regions
+                cons = B.constraints[ncons0:ncons1]
+                # linking constraints `0 * 0 = expr - out` (inside a guarded region: `... + dummy`): for every new public
+                # wire, is there such a constraint with coefficient -1 on it in which it is the newest public wire?
                 links = []
-                for idx in range(len(B.pubvals) - npub0):
+                for idx in range(npub1 - npub0):
                     k = npub0 + 1 + idx
                     for (a, b, cc) in cons:
                         if not a.lc and not b.lc and cc.lc.get(k, 0) % p == p - 1 and max([q for q in cc.lc if q > 0], default=0) == k:
